@@ -1,4 +1,5 @@
 """C01 — write then read returns the same file, for every physical line layout."""
+import json
 import os
 
 import common as C
@@ -6,7 +7,8 @@ import common as C
 PROPS = ["Props/C01.v"]
 OBLIG = ["Oblig/C01Frame.v"]
 # the record-level codec proofs (layout checker + generic theorems) are added when present
-for extra_p, extra_o in (("Props/C01Records.v", "Oblig/C01Obl.v"),):
+# ... and the file-level composition (typed file tree, reader dispatch tables regenerated from reader.go)
+for extra_p, extra_o in (("Props/C01Records.v", "Oblig/C01Obl.v"), ("Props/C01File.v", "Oblig/C01FileObl.v")):
     if os.path.exists(os.path.join(C.COQ, extra_p)):
         PROPS.append(extra_p)
         OBLIG.append(extra_o)
@@ -27,7 +29,38 @@ def build(ctx):
     ctx.log("ocaml", out[-3000:])
     if not ok:
         ctx.diag.append("extracted model does not build: " + out[-600:])
+    if os.path.exists(os.path.join(C.COQ, "Extract", "C01FILE.v")):
+        ok, out = C.build_ocaml("c01file")
+        ctx.log("ocaml c01file", out[-3000:])
+        if not ok:
+            ctx.diag.append("extracted whole-file model does not build: " + out[-600:])
     return True
+
+
+def file_corr(ctx, d):
+    """(3) whole files: extracted Dispatch.read_text over the regenerated layouts vs ach.NewReader on the
+    writer's output for generated valid files of every SEC code, and on structural variants (SkipAll)."""
+    drv = os.path.join(C.BUILD, "ocaml", "c01file", "driver")
+    exe = os.path.join(C.BIN, "c01file")
+    if not (os.path.exists(drv) and os.path.exists(exe)):
+        ctx.diag.append("whole-file correspondence could not run (driver or harness missing)")
+        return
+    rc, out = C.sh([exe, "files", "-out", d, "-n", str(ctx.scale(2, 12)), "-nvar", str(ctx.scale(3, 6))], timeout=3000)
+    ctx.log("corr files", out[-1500:])
+    if rc != 0:
+        ctx.diag.append("whole-file correspondence crashed rc=%d: %s" % (rc, out[-300:]))
+        return
+    try:
+        ctx.cov["file_corr"] = json.loads(out.strip().splitlines()[-1])
+    except (ValueError, IndexError):
+        pass
+    C.sh("%s %s > %s" % (drv, os.path.join(d, "filecases.txt"), os.path.join(d, "filemodel.txt")), timeout=3000)
+    # long hex texts: keep the case column short in the evidence
+    c = open(os.path.join(d, "filecases.txt")).read().splitlines()
+    with open(os.path.join(d, "filecases.short.txt"), "w") as fh:
+        fh.write("\n".join(x[:2000] for x in c) + "\n")
+    ctx.compare("whole file read (typed reader model vs ach.Reader)", os.path.join(d, "filemodel.txt"),
+                os.path.join(d, "fileimpl.txt"), os.path.join(d, "filecases.short.txt"))
 
 
 def oracle(ctx, n, ntext, sub="oracle"):
@@ -55,10 +88,12 @@ def search(ctx, factor):
 
 def run(ctx):
     ctx.search = search
-    ctx.trusted += ["layout translator (translator/layouts.go: Parse/String/…Field of the 26 record types -> Gen/Layouts.v), validated by the record correspondence",
+    ctx.trusted += ["reader-dispatch translator (translator/readerdispatch.go: switch cases, code lists, SEC list, detection columns, guard texts of reader.go -> Gen/ReaderDispatch.v); the hand-modelled control flow of Codec/Dispatch.v (step1..step9) is validated by the whole-file correspondence",
+                    "layout translator (translator/layouts.go: Parse/String/…Field of the 26 record types -> Gen/Layouts.v), validated by the record correspondence",
                     "golang.org/x/net charset sniffing, bufio.Scanner (ScanRunes) — modelled as 'yield the decoded characters', not verified"]
     ctx.assumptions += ["input is valid UTF-8 (the charset stage is outside the model; late non-ASCII is a known finding)",
-                        "record validators are not part of the C01 model: the oracle supplies valid files"]
+                        "record validators are not part of the C01 model: the oracle supplies valid files",
+                        "file-level theorems: the typed reader is Reader.Read with record/batch validation skipped (ValidateOpts.SkipAll); a batch without control (accepted by Go) is outside the file tree (model: None)"]
     if not build(ctx):
         return
     drv = os.path.join(C.BUILD, "ocaml", "c01", "driver")
@@ -86,6 +121,7 @@ def run(ctx):
             fh.write("\n".join(c[k][:300] for k in keep) + "\n")
         ctx.compare("record String/Parse (26 layouts)", os.path.join(d, "model.f.txt"), os.path.join(d, "impl.f.txt"), os.path.join(d, "cases.f.txt"))
         ctx.compare("reader framing", os.path.join(d, "fmodel.txt"), os.path.join(d, "fimpl.txt"), os.path.join(d, "fcases.txt"))
+        file_corr(ctx, d)
     else:
         ctx.diag.append("correspondence could not run: " + (out + out2)[-300:])
     summ = oracle(ctx, ctx.scale(600, 6000), ctx.scale(600, 6000))
